@@ -3,9 +3,18 @@
 From QV Require Import Base.ListX Model.NameWire Spec.NameWireS Spec.NameRepr Proofs.NameWireP
   Model.ZfReader Model.ZfParser Proofs.ZfReaderP Proofs.ZfStdP Spec.ZfValidS Proofs.ZfNameP Proofs.ZfParserP
   Proofs.ZfRecordP Proofs.ZfFieldsP Proofs.ZfRunP Proofs.ZfTokP Proofs.ZfNameRP Proofs.ZfSymP Proofs.ZfAddrP
-  Proofs.ZfRecRP Spec.ZfRenderS.
+  Proofs.ZfRecRP Spec.ZfRenderS Model.ZfRecOnly.
 
 Local Open Scope N_scope.
+
+(* for either numbering of the bits of a WKS bit map; where a WKS record lists ports in its own syntax the
+   parser's numbering is required ([ord_rdata] / [ord_line] / [ord_file]) *)
+Section Ord.
+Context {bo : BitOrder}.
+
+Definition ord_rdata (dc : dchoice) (d : ardata) : Prop := bo = impl_order \/ wks_listed dc d = false.
+Definition ord_line (l : aline) : Prop := bo = impl_order \/ line_wks_listed l = false.
+Definition ord_file (ls : list aline) : Prop := Forall ord_line ls.
 
 (* the record of the model that an abstract record denotes *)
 Definition rr_of (r : arec) : rr :=
@@ -118,7 +127,7 @@ Qed.
 
 Lemma ctx_tc_of x : ctx_tc x (ctx_of x). Proof. repeat split. Qed.
 
-Theorem record_fields_runs x rc r sol p1 :
+Theorem record_fields_runs x rc r sol p1 : ord_rdata (rc_rdata rc) (a_rdata r) ->
   sctx_good x -> sep_paren false (rc_lead rc) = Some p1 -> record_ok x rc r = true ->
   runs (eoft (e_term (rc_end rc))) (parse_record_fields (ctx_of x) sol (sep_lead_blank (rc_lead rc)))
        (match rc_owner rc with Some (nc, s) => render_name nc (a_owner r) ++ render_sep s | None => [] end
@@ -127,7 +136,7 @@ Theorem record_fields_runs x rc r sol p1 :
        p1 false
        (Some (mkLine (p_line sol) (CRecord (rr_of r))), ctx_of (after_record x r)).
 Proof.
-  intros Hx Hlead Hok. unfold record_ok in Hok. rewrite Hlead in Hok.
+  intros Hord Hx Hlead Hok. unfold record_ok in Hok. rewrite Hlead in Hok.
   destruct (match rc_owner rc with
             | Some (nc, s) => if negb (sep_lead_blank (rc_lead rc)) && name_ok false true (x_origin x) nc (a_owner r)
                               then sep_ok p1 false s else None
@@ -157,7 +166,7 @@ Proof.
     rewrite HK. cbn [fst snd].
     eapply runs_bind; [apply type_runs; assumption|intros t Ht; rewrite <- app_assoc; eapply rdata_fend; eassumption|].
     cbv beta. apply runs_app_nil.
-    eapply runs_bind; [eapply rdata_runs; eassumption|intros t Ht; exact Ht|].
+    eapply runs_bind; [eapply rdata_runs; [exact Hx|exact Hord|exact Erd|exact Heol]|intros t Ht; exact Ht|].
     cbv beta. apply runs_ret. }
   unfold parse_record_fields. destruct (rc_owner rc) as [[nc s]|] eqn:Eo.
   - destruct (negb (sep_lead_blank (rc_lead rc))) eqn:Elb; [|discriminate]. cbn [andb] in Eown.
@@ -316,12 +325,12 @@ Lemma sep_empty_lead s : sep_empty s = true -> sep_lead_blank s = false.
 Proof. unfold sep_empty, sep_lead_blank. destruct (s_groups s); [|discriminate]. destruct (s_tail s); [reflexivity|discriminate]. Qed.
 
 (* a record line (stage 3): the record with the number of the line it starts on, and the new context *)
-Theorem record_line_parses x rc r t rd0 : sctx_good x -> record_ok x rc r = true ->
+Theorem record_line_parses x rc r t rd0 : ord_rdata (rc_rdata rc) (a_rdata r) -> sctx_good x -> record_ok x rc r = true ->
   r_rest rd0 = render_record rc r ++ t -> r_paren rd0 = false -> wfr rd0 -> eoft (e_term (rc_end rc)) t ->
   exists rd1, parse_line (ctx_of x) rd0 = Ok ((Some (item_of (p_line (r_pos rd0)) r), ctx_of (after_record x r)), rd1) /\
               post rd0 rd1 (render_record rc r) t false.
 Proof.
-  intros Hx Hok E P W Ht. destruct (record_ok_lead x rc r Hok) as (p1 & Hlead).
+  intros Hord Hx Hok E P W Ht. destruct (record_ok_lead x rc r Hok) as (p1 & Hlead).
   rewrite render_record_split in *.
   set (body := match rc_owner rc with Some (nc, s) => render_name nc (a_owner r) ++ render_sep s | None => [] end
      ++ render_tc (rc_tc rc) (a_class r) ++ render_type (rc_type rc) (a_type r)
@@ -528,13 +537,13 @@ Qed.
 
 (* ---- any line ---------------------------------------------------------------------------------------------------------------------------------- *)
 
-Theorem line_parses x l t rd0 : sctx_good x -> line_ok x l = true ->
+Theorem line_parses x l t rd0 : ord_line l -> sctx_good x -> line_ok x l = true ->
   r_rest rd0 = render_line l ++ t -> r_paren rd0 = false -> wfr rd0 -> eoft (e_term (line_end l)) t ->
   exists rd1, parse_line (ctx_of x) rd0 =
                 Ok ((option_map (line_of (p_line (r_pos rd0))) (line_item x l), ctx_of (after_line x l)), rd1) /\
               post rd0 rd1 (render_line l) t false.
 Proof.
-  intros Hx Hok E P W Ht. destruct l as [rc r|e|lows s nc ls e|lows s ic raw e|lows s pc path org e]; cbn [line_end] in Ht.
+  intros Hord Hx Hok E P W Ht. destruct l as [rc r|e|lows s nc ls e|lows s ic raw e|lows s pc path org e]; cbn [line_end] in Ht.
   - eapply record_line_parses; eassumption.
   - cbn [after_line]. eapply blank_line_parses; eassumption.
   - eapply origin_line_parses; eassumption.
@@ -582,7 +591,7 @@ Proof.
   - eapply IH; [eapply after_line_good; eassumption|exact Hrest|exact He2].
 Qed.
 
-Lemma lines_loop_file : forall ls x rd fuel, sctx_good x -> file_ok x ls = true ->
+Lemma lines_loop_file : forall ls x rd fuel, ord_file ls -> sctx_good x -> file_ok x ls = true ->
   r_rest rd = render_file ls -> r_paren rd = false -> wfr rd -> (length (r_rest rd) < fuel)%nat ->
   match denote x (p_line (r_pos rd)) ls with
   | [] => exists c' rd', lines_loop fuel (ctx_of x) rd = Ok (None, c', rd') /\ r_rest rd' = [] /\ wfr rd' /\ r_fuel rd' = r_fuel rd
@@ -593,7 +602,7 @@ Lemma lines_loop_file : forall ls x rd fuel, sctx_good x -> file_ok x ls = true 
       (forall Q : aline -> Prop, Forall Q ls -> Forall Q ls')
   end.
 Proof.
-  induction ls as [|l ls IH]; intros x rd fuel Hx Hok E P W L; (destruct fuel as [|fuel]; [lia|]).
+  induction ls as [|l ls IH]; intros x rd fuel Hord Hx Hok E P W L; (destruct fuel as [|fuel]; [lia|]).
   - cbn [denote lines_loop]. cbn [render_file] in E. unfold at_eof. rewrite E. eauto 8.
   - pose proof Hok as Hok0. cbn [file_ok] in Hok. apply andb_true_iff in Hok. destruct Hok as [Hok Hrest]. apply andb_true_iff in Hok. destruct Hok as [Hl Heof].
     cbn [render_file] in E.
@@ -612,7 +621,8 @@ Proof.
         - destruct (hd false lows); discriminate Etx.
         - destruct (hd false lows); discriminate Etx.
         - destruct (hd false lows); discriminate Etx. }
-      rewrite <- Er in *. destruct (line_parses x l (render_file ls) rd Hx Hl E P W Ht) as (rd1 & F1 & P1).
+      inversion Hord as [|? ? Hordl Hordls]; subst.
+      rewrite <- Er in *. destruct (line_parses x l (render_file ls) rd Hordl Hx Hl E P W Ht) as (rd1 & F1 & P1).
       rewrite F1. pose proof (post_wfr _ _ _ _ _ W E P1) as W1. pose proof (post_len _ _ _ _ _ E P1) as L1.
       destruct P1 as (A1 & A2 & A3 & A4).
       pose proof (after_line_good x l Hx Hl) as Hx'.
@@ -620,7 +630,7 @@ Proof.
       * exists (after_line x l), ls, rd1. split; [reflexivity|]. split; [exact Hx'|]. split; [exact Hrest|].
         split; [exact A1|]. split; [exact A2|]. split; [exact W1|]. split; [exact A4|]. split; [rewrite A3; reflexivity|]. split; [lia|].
         intros Q HQ. inversion HQ; assumption.
-      * specialize (IH _ rd1 fuel Hx' Hrest A1 A2 W1 ltac:(lia)). rewrite A3 in IH.
+      * specialize (IH _ rd1 fuel Hordls Hx' Hrest A1 A2 W1 ltac:(lia)). rewrite A3 in IH.
         destruct (denote (after_line x l) (p_line (r_pos rd) + count_nl (render_line l)) ls) as [|[n it] rest].
         -- destruct IH as (c' & rd' & F & B1 & B2 & B3). exists c', rd'. split; [exact F|]. split; [exact B1|]. split; [exact B2|congruence].
         -- destruct IH as (x' & ls' & rd' & F & B1 & B2 & B3 & B4 & B5 & B6 & B7 & B8 & B9).
@@ -630,39 +640,38 @@ Qed.
 
 Definition items_of (l : list (N * aitem)) : list (line + (pos * zkind)) := map (fun nr => inl (line_of (fst nr) (snd nr))) l.
 
-Lemma collect_file : forall recs ls x rd fuel acc, denote x (p_line (r_pos rd)) ls = recs ->
+Lemma collect_file : forall recs ls x rd fuel acc, denote x (p_line (r_pos rd)) ls = recs -> ord_file ls ->
   sctx_good x -> file_ok x ls = true -> r_rest rd = render_file ls -> r_paren rd = false -> wfr rd ->
   (length (r_rest rd) < fuel)%nat ->
   exists p', collect fuel (mkParser false rd (ctx_of x)) acc = Ok (rev acc ++ items_of recs, p').
 Proof.
-  induction recs as [|[n it] recs IH]; intros ls x rd fuel acc Hd Hx Hok E P W L; (destruct fuel as [|fuel]; [lia|]).
+  induction recs as [|[n it] recs IH]; intros ls x rd fuel acc Hd Hord Hx Hok E P W L; (destruct fuel as [|fuel]; [lia|]).
   - assert (LL : (length (r_rest rd) < r_fuel rd)%nat) by (unfold wfr in W; lia).
-    pose proof (lines_loop_file ls x rd (r_fuel rd) Hx Hok E P W LL) as H. rewrite Hd in H.
+    pose proof (lines_loop_file ls x rd (r_fuel rd) Hord Hx Hok E P W LL) as H. rewrite Hd in H.
     destruct H as (c' & rd' & F & _). cbn [collect]. unfold parser_next. cbn [ps_error ps_rd ps_ctx]. rewrite F. cbn [bind].
     eexists. rewrite rev_fast_rev, app_nil_r. reflexivity.
   - assert (LL : (length (r_rest rd) < r_fuel rd)%nat) by (unfold wfr in W; lia).
-    pose proof (lines_loop_file ls x rd (r_fuel rd) Hx Hok E P W LL) as H. rewrite Hd in H.
-    destruct H as (x' & ls' & rd' & F & B1 & B2 & B3 & B4 & B5 & B6 & B7 & B8 & _).
+    pose proof (lines_loop_file ls x rd (r_fuel rd) Hord Hx Hok E P W LL) as H. rewrite Hd in H.
+    destruct H as (x' & ls' & rd' & F & B1 & B2 & B3 & B4 & B5 & B6 & B7 & B8 & B9).
     cbn [collect]. unfold parser_next. cbn [ps_error ps_rd ps_ctx]. rewrite F. cbn [bind].
-    destruct (IH ls' x' rd' fuel (inl (line_of n it) :: acc) B7 B1 B2 B3 B4 B5 ltac:(lia)) as (p' & Hc).
+    destruct (IH ls' x' rd' fuel (inl (line_of n it) :: acc) B7 (B9 _ Hord) B1 B2 B3 B4 B5 ltac:(lia)) as (p' & Hc).
     exists p'. rewrite Hc. cbn [rev items_of map fst snd]. rewrite <- app_assoc. reflexivity.
 Qed.
 
 Lemma ctx0_of : ctx0 = ctx_of sctx0. Proof. reflexivity. Qed.
 
 (* stage 4: a rendered file parses to exactly the records and $INCLUDE directives it denotes, in order, with their line numbers *)
-Theorem file_roundtrip ls : file_ok sctx0 ls = true ->
+Theorem file_roundtrip ls : ord_file ls -> file_ok sctx0 ls = true ->
   exists p, parse_all (render ls) = Ok (items_of (number_lines ls), p).
 Proof.
-  intros Hok. unfold parse_all, parser_new, render, number_lines. rewrite ctx0_of.
-  destruct (collect_file (denote sctx0 1 ls) ls sctx0 (rd_new (render_file ls)) (S (S (length (render_file ls)))) [] eq_refl) as (p & H);
+  intros Hord Hok. unfold parse_all, parser_new, render, number_lines. rewrite ctx0_of.
+  destruct (collect_file (denote sctx0 1 ls) ls sctx0 (rd_new (render_file ls)) (S (S (length (render_file ls)))) [] eq_refl Hord) as (p & H);
     [intros ols Ho; discriminate|exact Hok|reflexivity|reflexivity|unfold wfr, rd_new; cbn; lia|unfold rd_new; cbn; lia|].
   exists p. exact H.
 Qed.
 
 (* ---- the records-only iterator (what the zone loader consumes) on rendered files --------------------------------------------------- *)
 
-From QV Require Import Model.ZfRecOnly.
 
 Definition no_include (ls : list aline) : Prop := Forall (fun l => match l with LInclude _ _ _ _ _ _ => False | _ => True end) ls.
 
@@ -679,32 +688,97 @@ Proof.
   destruct l; cbn [line_item]; try (apply IH; exact Hls); [|contradiction]. constructor; [eexists; reflexivity|apply IH; exact Hls].
 Qed.
 
-Lemma ro_collect_file : forall recs ls x rd fuel acc, denote x (p_line (r_pos rd)) ls = recs -> no_include ls ->
+Lemma ro_collect_file : forall recs ls x rd fuel acc, denote x (p_line (r_pos rd)) ls = recs -> ord_file ls -> no_include ls ->
   sctx_good x -> file_ok x ls = true -> r_rest rd = render_file ls -> r_paren rd = false -> wfr rd ->
   (length (r_rest rd) < fuel)%nat ->
   exists p', ro_collect fuel (mkParser false rd (ctx_of x)) acc = Ok (rev acc ++ records_of recs, p').
 Proof.
-  induction recs as [|[n it] recs IH]; intros ls x rd fuel acc Hd Hni Hx Hok E P W L; (destruct fuel as [|fuel]; [lia|]).
+  induction recs as [|[n it] recs IH]; intros ls x rd fuel acc Hd Hord Hni Hx Hok E P W L; (destruct fuel as [|fuel]; [lia|]).
   - assert (LL : (length (r_rest rd) < r_fuel rd)%nat) by (unfold wfr in W; lia).
-    pose proof (lines_loop_file ls x rd (r_fuel rd) Hx Hok E P W LL) as H. rewrite Hd in H.
+    pose proof (lines_loop_file ls x rd (r_fuel rd) Hord Hx Hok E P W LL) as H. rewrite Hd in H.
     destruct H as (c' & rd' & F & _). cbn [ro_collect]. unfold ro_next, parser_next. cbn [ps_error ps_rd ps_ctx]. rewrite F. cbn [bind].
     eexists. rewrite rev_fast_rev, app_nil_r. reflexivity.
   - assert (LL : (length (r_rest rd) < r_fuel rd)%nat) by (unfold wfr in W; lia).
     pose proof (denote_no_include ls x (p_line (r_pos rd)) Hni) as Hrec. rewrite Hd in Hrec. inversion Hrec as [|? ? [r Hr] Hrec']; subst. cbn [snd] in Hr. subst it.
-    pose proof (lines_loop_file ls x rd (r_fuel rd) Hx Hok E P W LL) as H. rewrite Hd in H.
+    pose proof (lines_loop_file ls x rd (r_fuel rd) Hord Hx Hok E P W LL) as H. rewrite Hd in H.
     destruct H as (x' & ls' & rd' & F & B1 & B2 & B3 & B4 & B5 & B6 & B7 & B8 & B9).
     assert (Hni' : no_include ls') by (apply B9; exact Hni).
     cbn [ro_collect]. unfold ro_next, parser_next. cbn [ps_error ps_rd ps_ctx]. rewrite F. cbn [bind line_of item_of l_content l_number].
-    destruct (IH ls' x' rd' fuel (inl (mkRoLine n (rr_of r)) :: acc) B7 Hni' B1 B2 B3 B4 B5 ltac:(lia)) as (p' & Hc).
+    destruct (IH ls' x' rd' fuel (inl (mkRoLine n (rr_of r)) :: acc) B7 (B9 _ Hord) Hni' B1 B2 B3 B4 B5 ltac:(lia)) as (p' & Hc).
     exists p'. rewrite Hc. cbn [rev records_of]. rewrite <- app_assoc. reflexivity.
 Qed.
 
 (* a rendered file without $INCLUDE lines, read through Parser::records_only(): exactly its records *)
-Theorem file_roundtrip_records_only ls : file_ok sctx0 ls = true -> no_include ls ->
+Theorem file_roundtrip_records_only ls : ord_file ls -> file_ok sctx0 ls = true -> no_include ls ->
   exists p, ro_all (render ls) = Ok (records_of (number_lines ls), p).
 Proof.
-  intros Hok Hni. unfold ro_all, parser_new, render, number_lines. rewrite ctx0_of.
-  destruct (ro_collect_file (denote sctx0 1 ls) ls sctx0 (rd_new (render_file ls)) (S (S (length (render_file ls)))) [] eq_refl Hni) as (p & H);
+  intros Hord Hok Hni. unfold ro_all, parser_new, render, number_lines. rewrite ctx0_of.
+  destruct (ro_collect_file (denote sctx0 1 ls) ls sctx0 (rd_new (render_file ls)) (S (S (length (render_file ls)))) [] eq_refl Hord Hni) as (p & H);
     [intros ols Ho; discriminate|exact Hok|reflexivity|reflexivity|unfold wfr, rd_new; cbn; lia|unfold rd_new; cbn; lia|].
   exists p. exact H.
+Qed.
+
+End Ord.
+
+(* the two ways of meeting the side condition *)
+Lemma ord_file_impl ls : @ord_file impl_order ls.
+Proof. apply Forall_forall. intros l _. left. reflexivity. Qed.
+
+Lemma ord_file_free {bo : BitOrder} ls : wks_free ls = true -> ord_file ls.
+Proof.
+  unfold wks_free. rewrite forallb_forall. intros H. apply Forall_forall. intros l Hl. right. apply negb_true_iff. apply H. exact Hl.
+Qed.
+
+(* ---- the statements against the RFC's numbering of the WKS bits (outside the class of known finding C23-1),
+        against the implementation's numbering (no exclusion), and the witness of the difference ------------------- *)
+
+Lemma rdata_runs_rfc x class type dc d e p p3 : sctx_good x -> wks_listed dc d = false ->
+  @rdata_ok rfc_order (x_origin x) p class type dc d = Some p3 -> eol_ok p3 e = true ->
+  runs (eoft (e_term e)) (parse_rdata (ctx_of x) class type) (@render_rdata rfc_order dc d ++ render_eol e) p false (@rdata_wire rfc_order d).
+Proof. intros Hx Hw. apply (@rdata_runs rfc_order); [exact Hx|right; exact Hw]. Qed.
+
+Lemma record_line_parses_rfc x rc r t rd0 : wks_listed (rc_rdata rc) (a_rdata r) = false -> sctx_good x ->
+  @record_ok rfc_order x rc r = true ->
+  r_rest rd0 = @render_record rfc_order rc r ++ t -> r_paren rd0 = false -> wfr rd0 -> eoft (e_term (rc_end rc)) t ->
+  exists rd1, parse_line (ctx_of x) rd0 = Ok ((Some (@item_of rfc_order (p_line (r_pos rd0)) r), ctx_of (after_record x r)), rd1) /\
+              post rd0 rd1 (@render_record rfc_order rc r) t false.
+Proof. intros Hw. apply (@record_line_parses rfc_order). right. exact Hw. Qed.
+
+Lemma line_parses_rfc x l t rd0 : line_wks_listed l = false -> sctx_good x -> @line_ok rfc_order x l = true ->
+  r_rest rd0 = @render_line rfc_order l ++ t -> r_paren rd0 = false -> wfr rd0 -> eoft (e_term (line_end l)) t ->
+  exists rd1, parse_line (ctx_of x) rd0 =
+                Ok ((option_map (@line_of rfc_order (p_line (r_pos rd0))) (line_item x l), ctx_of (after_line x l)), rd1) /\
+              post rd0 rd1 (@render_line rfc_order l) t false.
+Proof. intros Hw. apply (@line_parses rfc_order). right. exact Hw. Qed.
+
+Lemma file_roundtrip_rfc ls : wks_free ls = true -> @file_ok rfc_order sctx0 ls = true ->
+  exists p, parse_all (@render rfc_order ls) = Ok (@items_of rfc_order (@number_lines rfc_order ls), p).
+Proof. intros Hw. apply (@file_roundtrip rfc_order). apply ord_file_free. exact Hw. Qed.
+
+Lemma file_roundtrip_records_only_rfc ls : wks_free ls = true -> @file_ok rfc_order sctx0 ls = true -> no_include ls ->
+  exists p, ro_all (@render rfc_order ls) = Ok (@records_of rfc_order (@number_lines rfc_order ls), p).
+Proof. intros Hw. apply (@file_roundtrip_records_only rfc_order). apply ord_file_free. exact Hw. Qed.
+
+Lemma file_roundtrip_impl ls : @file_ok impl_order sctx0 ls = true ->
+  exists p, parse_all (@render impl_order ls) = Ok (@items_of impl_order (@number_lines impl_order ls), p).
+Proof. apply (@file_roundtrip impl_order). apply ord_file_impl. Qed.
+
+(* ". 1 IN WKS 1.2.3.4 6 25<LF>" *)
+Definition wks_witness : list aline :=
+  let sp := mkSep [] [32] in
+  [LRecord (mkRc sep_none (Some (NAbs [], sp)) (TcTC 1 i_plain sp (SymMnemonic []) sp) (SymMnemonic [])
+              (DFields [(sp, CPlain); (sp, CProto (PNum i_plain)); (sp, CInt i_plain)]) (mkEol sep_none (TNl false)))
+           (mkArec [] 1 1 11 (AFields [VIp4 1 2 3 4; VProto 6; VPort 25]))].
+
+Lemma wks_bit_order_refuted :
+  @file_ok rfc_order sctx0 wks_witness = true /\
+  @render rfc_order wks_witness = [46;32;49;32;73;78;32;87;75;83;32;49;46;50;46;51;46;52;32;54;32;50;53;10] /\
+  (exists r, @number_lines rfc_order wks_witness = [(1, IRecord r)] /\ @rdata_wire rfc_order (a_rdata r) = [1;2;3;4;6;0;0;0;64]) /\
+  (exists r p, parse_all (@render rfc_order wks_witness) = Ok ([inl (mkLine 1 (CRecord r))], p) /\ rr_rdata r = [1;2;3;4;6;0;0;0;2]) /\
+  (forall p, parse_all (@render rfc_order wks_witness) <> Ok (@items_of rfc_order (@number_lines rfc_order wks_witness), p)).
+Proof.
+  split; [vm_compute; reflexivity|]. split; [vm_compute; reflexivity|].
+  split; [eexists; split; vm_compute; reflexivity|].
+  split; [vm_compute; do 2 eexists; split; reflexivity|].
+  intros p H. vm_compute in H. discriminate H.
 Qed.
